@@ -65,11 +65,13 @@ def wf_rule(ctx: Ctx, rep: Report) -> None:
         wf.final_facts(rep, R, label, out, wf.CIRCUIT_FINAL, wf.WHY)
         seq = wf.top_sequence(tree)
         rep.count(3)
+        idle = ('LogPass', 'LogErrorPass', 'NOOPPass', 'SetRandomSeedPass')
+        tail = [c for c in seq if c not in idle]
         rep.check(
-            bool(seq) and seq[-1] == 'RestoreMeasurements', R,
+            bool(tail) and tail[-1] == 'RestoreMeasurements', R,
             f'{label}:restore-last', wf.COMPILE, 0,
-            'RestoreMeasurements is the last pass',
-            f'the workflow ends with {seq[-2:]}: measurements are restored '
+            'RestoreMeasurements is the last pass that touches the circuit',
+            f'the workflow ends with {tail[-2:]}: measurements are restored '
             'before the last rewriting pass', key='restore-last',
         )
         rep.check(
@@ -80,8 +82,10 @@ def wf_rule(ctx: Ctx, rep: Report) -> None:
         )
         i_e = seq.index('ExtractMeasurements') if (
             'ExtractMeasurements' in seq) else -1
+        # unfolding and passes that do not touch the circuit may come first
         before = [c for c in seq[:max(i_e, 0)] if c not in (
-            'UnfoldPass', 'SetRandomSeedPass')]
+            'UnfoldPass', 'SetRandomSeedPass', 'LogPass', 'LogErrorPass',
+            'NOOPPass', 'SetModelPass')]
         rep.check(
             i_e >= 0 and not before, R, f'{label}:extract-first',
             wf.COMPILE, 0,
